@@ -1,0 +1,15 @@
+//go:build verif
+
+package store
+
+import "github.com/evstack/ev-node/types"
+
+// Verification hooks (build tag "verif"): read-only exports of the unexported key builders.
+
+func VerifHeaderKey(height uint64) string    { return getHeaderKey(height) }
+func VerifDataKey(height uint64) string      { return getDataKey(height) }
+func VerifSignatureKey(height uint64) string { return getSignatureKey(height) }
+func VerifStateKey() string                  { return getStateKey() }
+func VerifMetaKey(key string) string         { return getMetaKey(key) }
+func VerifIndexKey(hash types.Hash) string   { return getIndexKey(hash) }
+func VerifHeightKey() string                 { return getHeightKey() }
